@@ -135,6 +135,11 @@ func execBubble(t *testing.T, scn *Scenario, tape *Tape, trace bool, pre any, ou
 				}
 			}()
 			scn.Run(w)
+			// library goroutines that were adopted as tasks late in the scenario (e.g. started by its final cancels)
+			// must get to run before the run is judged for leaks
+			if !w.truncated && !w.Deadlocked && w.anyParked() {
+				w.Run()
+			}
 		}()
 		w.wait()
 		// Dumping every goroutine is expensive once earlier (failing) runs have left goroutines behind for good, so it
